@@ -213,7 +213,14 @@ def nodes_from_node_expression(
             elif len(nodes_nodes) < 1:
                 raise ReportableRuntimeError("The Node FilterShape {} does not have sh:nodes.".format(expr))
             filter_shape = next(iter(filter_shapes))
-            filter_shape = sg.lookup_shape_from_node(filter_shape)
+            try:
+                filter_shape = sg.lookup_shape_from_node(filter_shape)
+            except KeyError:
+                raise ReportableRuntimeError(
+                    "The sh:filterShape {} of a node expression is not a Shape in the SHACL Shapes Graph.".format(
+                        filter_shape
+                    )
+                )
             nodes_expr = next(iter(nodes_nodes))
             to_filter = nodes_from_node_expression(
                 nodes_expr, focus_node, data_graph, sg, recurse_depth=recurse_depth + 1, executor=executor
